@@ -107,6 +107,7 @@ type OtherT struct{ A []int }
 	add("same-named-converters-one-file", scratch.Tree{"a/a.go": "package a\n\ntype In struct{ V int }\ntype Out struct{ V int }\n\n// goverter:converter\n// goverter:output:file ../out/gen.go\ntype Conv interface {\n\tConvert(source In) Out\n}\n",
 		"b/b.go": "package b\n\ntype In struct{ V int }\ntype Out struct{ V int }\n\n// goverter:converter\n// goverter:output:file ../out/gen.go\ntype Conv interface {\n\tConvert(source In) Out\n}\n"}, map[string]string{})
 	add("submethod-name-equals-explicit-method", scratch.Tree{"p/p.go": "package p\n\ntype In struct{ V int }\ntype Out struct{ V int }\ntype W struct{ X In }\ntype WT struct{ X Out }\n\n// goverter:converter\ntype Conv interface {\n\tConvert(source W) WT\n\t// a declared method whose name is the one goverter would give the generated helper for In -> Out\n\tPInToPOut(source []In) []Out\n}\n"}, map[string]string{})
+	add("unexported-enum-member-other-package", scratch.Tree{"p/p.go": "package p\n\ntype Lv int\n\nconst (\n\tLvLow         Lv = 1\n\tLvHigh        Lv = 2\n\tlvDebugHidden Lv = 99\n)\n\ntype Tv int\n\nconst (\n\tTvLow         Tv = 11\n\tTvHigh        Tv = 12\n\tTvDebugHidden Tv = 19\n\tTvUnknown     Tv = 0\n)\n\n// goverter:converter\n// goverter:enum:unknown TvUnknown\ntype Conv interface {\n\t// goverter:enum:transform regex (?i)lv(\\w+) Tv$1\n\tConvert(source Lv) Tv\n}\n"}, map[string]string{})
 	add("type-id-collides-with-err", scratch.Tree{"e/e.go": "package e\n\ntype Rr struct{ V int }\ntype rr struct{ V int }\n\ntype In struct{ X rr }\ntype Out struct{ X *rr }\n\nfunc F(s rr) (*rr, error) { return &s, nil }\n\n// goverter:converter\n// goverter:output:file ./gen.go\n// goverter:extend F\ntype Conv interface {\n\tConvert(source In) (Out, error)\n}\n"}, map[string]string{})
 	return out
 }
@@ -119,6 +120,7 @@ var buildClasses = []struct {
 	{regexp.MustCompile(`refers to unexported field|unexported field or method|\.age undefined`), "D6-unexported-source-field"},
 	{regexp.MustCompile(`cannot compare|struct containing .* cannot be compared|invalid operation: .* != .*\(struct`), "D7-uncomparable-zero-guard"},
 	{regexp.MustCompile(`redeclared in this block`), "D4-redeclared"},
+	{regexp.MustCompile(`undefined: p\.lvDebugHidden`), "D24-unexported-enum-member"},
 	{regexp.MustCompile(`\b(c|i|j|k|l|m|n|o|p|q|r|s|t|u|v|w|x|y|z|source|target|context|key|value)\.\w+ (is not a type|undefined)`), "D8-import-alias-shadowed"},
 }
 
